@@ -350,7 +350,29 @@ func (x *Exec) appendOp(st *State, s, t Value, resT types.Type) Value {
 func (x *Exec) copyOp(st *State, d, s Value, resT types.Type) Value {
 	c := x.C
 	if isString(s.T) {
-		panic(unsupported("copy from string"))
+		// copy(dst []byte, src string): dst[do+i] = src[i] for i < min(len(dst), len(src))
+		elem := d.T.Underlying().(*types.Slice).Elem()
+		db, do, dn, _ := sliceParts(d)
+		sn := c.App(x.strLenFn(), s.L[0])
+		n := c.Ite(c.BVCmp("bvslt", dn, sn), dn, sn)
+		x.noteSliceWrite(st, elem, db, c.BVCmp("bvsgt", n, c.BVI(0, 64)), x.curPos)
+		name := sliceComp(elem, 0)
+		h := x.comp(st, name, BV(8))
+		dst := c.Select(h, db)
+		var nd *Term
+		if n.IsLit() && (n.Val.Int64() <= 8 || x.Opt.Paths && n.Val.Int64() <= 512) {
+			nd = dst
+			for e := int64(0); e < n.Val.Int64(); e++ {
+				nd = c.Store(nd, c.BVBin("bvadd", do, c.BVI(e, 64)), c.App(x.strAtFn(), s.L[0], c.BVI(e, 64)))
+			}
+		} else {
+			nd = c.Fresh("copy.dst", ArraySort(IdxSort, BV(8)))
+			i := c.Var("q$c", IdxSort)
+			inRange := c.And(c.BVCmp("bvsle", do, i), c.BVCmp("bvslt", i, c.BVBin("bvadd", do, n)))
+			x.assume(st, c.Forall([]*Term{i}, c.Eq(c.Select(nd, i), c.Ite(inRange, c.App(x.strAtFn(), s.L[0], c.BVBin("bvsub", i, do)), c.Select(dst, i))), c.Select(nd, i)))
+		}
+		x.setComp(st, name, BV(8), c.Store(h, db, nd))
+		return Value{T: resT, L: []*Term{n}}
 	}
 	elem := d.T.Underlying().(*types.Slice).Elem()
 	lay := LayoutOf(elem)
